@@ -329,6 +329,16 @@ def run_lint(case, ctx, res):
             toml += ["[[annotations]]", "path = " + json.dumps(g), 'precedence = "aggregate"',
                      f'SPDX-FileCopyrightText = "2020 Holder{j}"', f'SPDX-License-Identifier = "LicenseRef-G{j}"', ""]
         (base / "REUSE.toml").write_text("\n".join(toml))
+        if base_rel and (case["k"] // 4) % 2 == 0:
+            # more REUSE.toml files in the project - in the root, in directories that are no ancestors of the files, before and
+            # after this one in every order - take nothing away from the one under test (and match nothing themselves)
+            for other in ("", "AAA first", "zzz last", base_rel + "-sibling", "deep/AAA"):
+                od = root / other
+                od.mkdir(parents=True, exist_ok=True)
+                if not (od / "REUSE.toml").exists():
+                    (od / "REUSE.toml").write_text('version = 1\n\n[[annotations]]\npath = "no-such-file-anywhere.xyz"\n'
+                                                   'SPDX-FileCopyrightText = "2001 Elsewhere"\nSPDX-License-Identifier = "CC0-1.0"\n')
+            res.cell("lint:several-REUSE.toml-in-unrelated-directories")
         r = run_cli(["--no-multiprocessing", "--root", str(root), "lint", "--json"], cwd=str(root))
         try:
             data = json.loads(r.stdout)
